@@ -55,12 +55,16 @@ pub open spec fn entry_of(key: (MonotonicTime, usize), a: Action) -> Entry {
 impl SchedulerQueue {
     // PriorityQueue<(MonotonicTime, usize), Action> viewed as the sequence of its entries in pull order
     pub uninterp spec fn view(&self) -> Seq<Entry>;
+    // monitor pass: is the Mutex around the queue held by the current thread?        //@if mon
+    pub uninterp spec fn locked(&self) -> bool;                                        //@if mon
 
     // contract of util::PriorityQueue (proved in unit pq): stable sorted insertion, head extraction
     #[verifier::external_body]
     pub fn insert(&mut self, key: (MonotonicTime, usize), a: Action)
         requires sorted(old(self).view()),
+            old(self).locked(),                                                        //@if mon
         ensures
+            final(self).locked(),                                                      //@if mon
             sorted(final(self).view()),
             exists|p: int| 0 <= p <= old(self).view().len()
               && #[trigger] final(self).view() == old(self).view().insert(p, entry_of(key, a))
@@ -69,13 +73,16 @@ impl SchedulerQueue {
     { unimplemented!() }
     #[verifier::external_body]
     pub fn pull(&mut self) -> (r: Option<((MonotonicTime, usize), Action)>)
+        requires old(self).locked(),                                                   //@if mon
         ensures
+            final(self).locked(),                                                      //@if mon
             old(self).view().len() == 0 ==> r.is_none() && final(self).view() == old(self).view(),
             old(self).view().len() > 0 ==> r.is_some() && final(self).view() == old(self).view().drop_first()
                 && entry_of(r.unwrap().0, r.unwrap().1) == old(self).view()[0],
     { unimplemented!() }
     #[verifier::external_body]
     pub fn peek(&self) -> (r: Option<(&(MonotonicTime, usize), &Action)>)
+        requires self.locked(),                                                        //@if mon
         ensures
             self.view().len() == 0 ==> r.is_none(),
             self.view().len() > 0 ==> r.is_some() && entry_of(*r.unwrap().0, *r.unwrap().1) == self.view()[0],
